@@ -303,6 +303,7 @@ def _nodes():
     return [
         {"processor": lib.SrcV, "parameters": {}},
         {"processor": lib.OpAdd, "parameters": {}},
+        {"processor": lib.OpAcc, "parameters": {"acc": {"class": "vt.lib.Acc", "kwargs": {}}}},  # a stateful helper object built from a descriptor: every run gets its own
         {"processor": lib.OpBoom, "parameters": {}},
         {"processor": lib.PrVal, "context_key": "res"},
         {"processor": "rename:extra:moved"},  # consumes (removes) a key that only --context supplies: every run needs its own copy
@@ -455,7 +456,7 @@ def obligations(tier: str) -> List[Ob]:
            targets=["semantiva/trace/runtime/run_space_identity.py:RunSpaceIdentityService._sha256_file"], stubs=["injective-hash model"]),
         Ob("C09.P3", _make_p3, lambda p, a: C04._wrap(_p3_body(p[0], [a["x0"], a["x1"], a["x2"]], [a["f0"], a["f1"], a["f2"]], a["addend"], p[1], p[2], bool(p[3]) if len(p) > 3 else False, a.get("collide", False))), budget=900, per_path=120,
            params=[(n, i, at) for n in (1, 2, 3) for i in (0, 1, 2) for at in (1, 2, 3)] + [(2, i, at, True) for i in (0, 1, 2) for at in (1, 2)],
-           bound="real cli._run, one obligation per (n runs in 1..3, launch-id option, attempt): per-run context values and shared --context value symbolic, --context optionally naming a planned key too (flag), failing run chosen by 3 symbolic flags; 6 extra obligations repeat the identical launch after it already ran once in the process; launch-id option (explicit / idempotency key / generated) and attempt 1..3 symbolic; 6-node pipeline (incl. a rename that consumes a --context-only key)",
+           bound="real cli._run, one obligation per (n runs in 1..3, launch-id option, attempt): per-run context values and shared --context value symbolic, --context optionally naming a planned key too (flag), failing run chosen by 3 symbolic flags; 6 extra obligations repeat the identical launch after it already ran once in the process; launch-id option (explicit / idempotency key / generated) and attempt 1..3 symbolic; 7-node pipeline (incl. a node whose parameter is a stateful object built from a descriptor, and a rename that consumes a --context-only key)",
            targets=["semantiva/cli/__init__.py:_run", "semantiva/trace/runtime/run_space_emitter.py:RunSpaceTraceEmitter.emit_start", "semantiva/trace/runtime/run_space_emitter.py:RunSpaceTraceEmitter.emit_end", "semantiva/pipeline/pipeline.py:Pipeline.set_run_metadata", "semantiva/execution/orchestrator/orchestrator.py:SemantivaOrchestrator.execute"], stubs=list(STUBS) + cliharness.STUBS),
     ]
 
